@@ -223,6 +223,8 @@ class Component( ComponentLevel7 ):
     # the value/method nets.
     connection_pairs = []
     for (x, y) in provided_connections:
+      if isinstance( x, str ): # both ends belong to the new component
+        x = eval(x)
       connection_pairs.append( x )
       connection_pairs.append( eval(y) )
       if not top._dsl._has_pending_value_connections and isinstance( x, Signal ):
@@ -398,6 +400,7 @@ class Component( ComponentLevel7 ):
         parent._dsl.func_calls[func] -= to_save
 
       saved_connections = []
+      saved_loopbacks   = set()
 
       for x in removed_connectables:
         # Clean up all_adjancency at top
@@ -410,6 +413,15 @@ class Component( ComponentLevel7 ):
               if isinstance( other, Const ):
                 other = other._dsl.const
               saved_connections.append( (other, "top"+repr(x)[1:]) ) # other is from outside
+
+            # .. unless the PARENT connected two ports of the removed
+            # component to each other: the new component will not recreate
+            # this connection, so we save both ends by name
+            elif other in removed_connectables and other in parent._dsl.adjacency.get( x, () ):
+              pair = frozenset( [ "top"+repr(x)[1:], "top"+repr(other)[1:] ] )
+              if len(pair) == 2 and pair not in saved_loopbacks:
+                saved_loopbacks.add( pair )
+                saved_connections.append( tuple(sorted(pair)) )
           del top._dsl.all_adjacency[x]
 
         # Clean up adjacency at parent
